@@ -39,6 +39,9 @@ func writeCE(v *Violation, path string) error {
 				}
 			}
 			ce[fmt.Sprintf("%s[]#%d", nd.Name, k)] = vals
+			if c, ok := v.Model[fmt.Sprintf("%s[]#%d@cand", nd.Name, k)]; ok {
+				ce[fmt.Sprintf("%s[]#%d@cand", nd.Name, k)] = []uint64{c.Uint64()}
+			}
 			if nd.Shape == 20 {
 				// 20 attacker-chosen bytes that the model made equal to an honest key's address: natively the address of
 				// abstract key i is that of a real secp256k1 key, so the assignment refers to the key instead of the model bytes
